@@ -536,6 +536,14 @@ def k_fixed(c):
         e = max(abs(u / v - 1) if p in ('flux', 'fwhm') else abs(u - v) for u, v in zip(a, truth[p]))
         out.append((e <= 1e-6, 'fixed-parameter/free-ones-recovered', f'{desc}: free {p} off by {e:.2e}', {'err': e}))
     out.append(([int(v) for v in res['id']] == list(range(1, len(src) + 1)), 'table/ids', f'{desc}: ids', None))
+    if 'fwhm' in c.get('free', []):
+        # the residual image must be made with every *fitted* model parameter (here the width,
+        # which differs from the template's), not only x, y and flux
+        peak = float(np.max(data))
+        rimg = np.asarray(phot.make_residual_image(data, psf_shape=(25, 25)), float)
+        d = float(np.max(np.abs(rimg)))
+        out.append((d <= 1e-5 * peak, 'residual/zero-with-a-fitted-extra-parameter',
+                    f'{desc}: max |residual| = {d:.3e} for peak {peak:.3e}', {'max': d}))
     return out
 
 
